@@ -66,7 +66,9 @@ def escape_once(val: str, *, environment: Environment) -> str:
     sequences.
     """
     if environment.auto_escape:
-        return Markup(val).unescape()
+        # Escaped here, and marked as such, rather than left for the output to
+        # escape. Applied to its own result, the filter would unescape it again.
+        return markupsafe_escape(Markup(val).unescape())
     return html.escape(html.unescape(val))
 
 
